@@ -1434,12 +1434,13 @@ def older_types_history(rng, v_old: str, cross: bool, avoid_hb: bool, length: in
             # child (outside the property's precondition): the node presents itself again AND then its children
             h.ops.append(("recv", f"{n};255;0;0;17;2.0", (), gw.DEFAULT_TIME))
             for cc in (0, 1):
-                h.ops.append(("recv", f"{n};{cc};0;0;6;c", (), gw.DEFAULT_TIME))
+                h.ops.append(("recv", f"{n};{cc};0;0;{rng.choice((6, 3, 18))};{rng.choice(('c', ''))}", (), gw.DEFAULT_TIME))
             continue
         if r < 0.1:
             line = f"{n};255;0;0;17;2.0"
         elif r < 0.2:
-            line = f"{n};{c};0;{ack()};6;d"
+            # child presentations: types whose enum NAME differs between the versions (3, 18), table edges, no description
+            line = f"{n};{c};0;{ack()};{rng.choice((6, 6, 3, 18, 0, 25))};{rng.choice(('d', 'd', '', 'x y'))}"
         elif r < 0.4:
             line = f"{n};{c};1;{ack()};{rng.choice((0, 2))};{rng.randint(0, 9)}"
         elif r < 0.5:
